@@ -28,10 +28,33 @@ Inductive ev := Chunk (bs : list N) (dt : Z) | TimeoutEv (dt : Z) | Eof.
    (what the property demands; the tree does so since the fix "read_until_timeout never returns
    more than nbytes").  [udp_cfg_cur] is QMI_UdpTransport as it was before that fix (whole buffer
    handed out); it is kept as the regression witness of C13_rut_len_udp_refuted. *)
-Record cfg := mkcfg { stream : bool; minp : N; maxp : N; rut_slice : bool }.
-Definition tcp_cfg := mkcfg true 0 512 true.           (* QMI_TcpTransport *)
-Definition udp_cfg := mkcfg false 4096 4096 true.      (* QMI_UdpTransport *)
-Definition udp_cfg_cur := mkcfg false 4096 4096 false. (* QMI_UdpTransport before the fix (defect) *)
+(* Choices of the implementation that property C13 leaves open.  Every theorem holds for EVERY
+   policy; the correspondence accepts the behaviour of any one policy (Corr.check_case), the
+   pinned code being one of them ([sock_pol] / [ser_pol]).
+     late_read   read(): the request is complete when the deadline check finds the deadline passed:
+                 true = return the n bytes, false = raise the timeout (everything stays buffered)
+     late_ru     read_until(): same choice when the terminator is there but the deadline has passed
+     stop_at     a deadline check exactly AT the deadline (tremain = 0): true = time out,
+                 false = go on (one more zero-timeout poll)
+     disc_once   socket discard_read(): true = one recv, false = recv until nothing is waiting
+     ru_chk_first read_until() on a closed transport with the terminator already buffered:
+                 true = refuse, false = serve from the buffer (the device is not touched either way) *)
+Record pol := mkpol { late_read : bool; late_ru : bool; stop_at : bool; disc_once : bool;
+                      ru_chk_first : bool }.
+Definition sock_pol := mkpol false true false false false.   (* QMI_SocketTransport as pinned *)
+Definition ser_pol := mkpol true true true false true.        (* QMI_SerialTransport as pinned *)
+
+(* [minp]/[maxp] = MIN_PACKET_SIZE / MAX_PACKET_SIZE of the class: tuning constants, read from the
+   live class on every run; all theorems are for every value. *)
+Record cfg := mkcfg { stream : bool; minp : N; maxp : N; rut_slice : bool; cpol : pol }.
+Definition tcp_cfg := mkcfg true 0 512 true sock_pol.           (* QMI_TcpTransport at the pin *)
+Definition udp_cfg := mkcfg false 4096 4096 true sock_pol.      (* QMI_UdpTransport at the pin *)
+Definition udp_cfg_cur := mkcfg false 4096 4096 false sock_pol. (* ... before the rut fix (defect) *)
+
+(* serial: [tick] = how long a Serial.read that comes up short lasts (SERIAL_READ_TIMEOUT handed to
+   serial.Serial, in clock ticks; read from the live code on every run) *)
+Record scfg := mkscfg { tick : Z; spol : pol }.
+Definition ser_cfg := mkscfg 40 ser_pol.
 
 (* calls made on the socket / serial.Serial stand-in *)
 Inductive dcall :=
@@ -119,12 +142,16 @@ Definition dev_recv (c : cfg) (size : N) (tmo : option Z) (s : st) : st * dres :
   | Eof :: _ => (s, DvData [])
   end.
 
-(* the deadline arithmetic shared by read and read_until:
-     if timeout is not None: tremain = tstart + timeout - time.monotonic(); if tremain < 0: raise *)
-Definition next_tremain (tmo : option Z) (tstart now : Z) : option (option Z) :=
+(* the deadline arithmetic shared by all read loops:
+     if timeout is not None: tremain = tstart + timeout - time.monotonic(); if tremain < 0: ...
+   (pinned sockets: < 0; pinned serial: <= 0) *)
+Definition passed (p : pol) (tr : Z) : bool := if stop_at p then (tr <=? 0)%Z else (tr <? 0)%Z.
+
+Inductive dl := DlNone | DlPassed | DlLeft (tr : Z).
+Definition deadline (p : pol) (tmo : option Z) (tstart now : Z) : dl :=
   match tmo with
-  | None => Some None
-  | Some t => let tr := (tstart + t - now)%Z in if (tr <? 0)%Z then None else Some (Some tr)
+  | None => DlNone
+  | Some t => let tr := (tstart + t - now)%Z in if passed p tr then DlPassed else DlLeft tr
   end.
 
 (* QMI_SocketTransport.read: the while loop and the final slice *)
@@ -145,9 +172,13 @@ Fixpoint read_loop (c : cfg) (fuel : nat) (n : N) (tmo : option Z) (tstart : Z)
       | DvData [] => (s1, REof)
       | DvData b =>
           let s2 := set_buf s1 (buf s1 ++ b) in
-          match next_tremain tmo tstart (clk s2) with
-          | None => (s2, RTimeout)
-          | Some tr => read_loop c f n tmo tstart tr s2
+          match deadline (cpol c) tmo tstart (clk s2) with
+          | DlPassed =>
+              if late_read (cpol c) && (n <=? len (buf s2))%N
+              then (set_buf s2 (drop n (buf s2)), RBytes (take n (buf s2)))
+              else (s2, RTimeout)
+          | DlNone => read_loop c f n tmo tstart None s2
+          | DlLeft tr => read_loop c f n tmo tstart (Some tr) s2
           end
       end
   end.
@@ -178,19 +209,20 @@ Fixpoint ru_loop (c : cfg) (fuel : nat) (term : list N) (tmo : option Z) (tstart
       | DvData [] => (s1, REof)
       | DvData b =>
           let s2 := set_buf s1 (buf s1 ++ b) in
-          match cut_term term s2 with
-          | Some x => x
-          | None =>
-              match next_tremain tmo tstart (clk s2) with
-              | None => (s2, RTimeout)
-              | Some tr => ru_loop c f term tmo tstart tr s2
-              end
+          match cut_term term s2, deadline (cpol c) tmo tstart (clk s2) with
+          | Some x, DlPassed => if late_ru (cpol c) then x else (s2, RTimeout)
+          | Some x, _ => x
+          | None, DlPassed => (s2, RTimeout)
+          | None, DlNone => ru_loop c f term tmo tstart None s2
+          | None, DlLeft tr => ru_loop c f term tmo tstart (Some tr) s2
           end
       end
   end.
 
-(* note the order in the source: the buffer is searched BEFORE _check_is_open *)
+(* note the order in the pinned source: the buffer is searched BEFORE _check_is_open *)
 Definition sock_read_until (c : cfg) (term : list N) (tmo : option Z) (s : st) : st * res :=
+  if ru_chk_first (cpol c) && negb (is_open s) then (s, RInvalid)
+  else
   match cut_term term s with
   | Some x => x
   | None => if is_open s then ru_loop c (fuel_of s) term tmo (clk s) tmo s else (s, RInvalid)
@@ -217,7 +249,7 @@ Fixpoint discard_loop (c : cfg) (fuel : nat) (s : st) (acc : list N) : st * res 
     let '(s1, d) := dev_recv c (maxp c) (Some 0%Z) (logc s (DRecv (maxp c))) in
     match d with
     | DvData [] => (s1, RNone, acc)
-    | DvData b => discard_loop c f s1 (acc ++ b)
+    | DvData b => if disc_once (cpol c) then (s1, RNone, acc ++ b) else discard_loop c f s1 (acc ++ b)
     | DvOsErr b => (s1, RNone, acc ++ b)
     | DvTimeout | DvHang => (s1, RNone, acc)
     end
@@ -245,8 +277,6 @@ Definition sock_write (d : list N) (s : st) : st * res :=
 (* Serial device (serial.Serial stand-in)                                                      *)
 (* ------------------------------------------------------------------------------------------ *)
 
-Definition ser_tick : Z := 40.   (* SERIAL_READ_TIMEOUT, in ticks *)
-
 (* bytes arriving at the port before the next access *)
 Definition ser_arrive (s : st) : st :=
   match orc s with
@@ -260,74 +290,95 @@ Definition ser_in_waiting (s : st) : st * N :=
   let s1 := logc (ser_arrive s) DInWaiting in (s1, len (pend s1)).
 
 (* Serial.read(k): at most k bytes; [silent] = the oracle was exhausted and the read came up short *)
-Definition ser_read (k : N) (s : st) : st * list N * bool :=
+Definition ser_read (tk : Z) (k : N) (s : st) : st * list N * bool :=
   let silent := match orc s with [] => (len (pend s) <? k)%N | _ => false end in
   let s1 := logc (ser_arrive s) (DRead k) in
-  let s2 := if silent then set_clk s1 (clk s1 + ser_tick) else s1 in
+  let s2 := if silent then set_clk s1 (clk s1 + tk) else s1 in
   (set_pend s2 (drop k (pend s2)), take k (pend s2), silent).
 
-Fixpoint ser_read_loop (fuel : nat) (n : N) (tmo : option Z) (tstart : Z) (s : st) : st * res :=
+(* QMI_SerialTransport.read, the blocking loop:
+     while True: buf += read(n - nbuf); if nbuf >= n: break; if tremain <= 0: break *)
+Fixpoint ser_read_loop (sc : scfg) (fuel : nat) (n : N) (tmo : option Z) (tstart : Z) (s : st)
+  : st * res :=
   match fuel with
   | O => (s, RFuel)
   | S f =>
-    let '(s1, b, silent) := ser_read (n - len (buf s)) s in
+    let '(s1, b, silent) := ser_read (tick sc) (n - len (buf s)) s in
     let s2 := set_buf s1 (buf s1 ++ b) in
-    if (n <=? len (buf s2))%N then (set_buf s2 [], RBytes (buf s2))
-    else match tmo with
-         | None => if silent then (s2, RHang) else ser_read_loop f n tmo tstart s2
-         | Some t => if (tstart + t - clk s2 <=? 0)%Z then (s2, RTimeout)
-                     else ser_read_loop f n tmo tstart s2
+    let d := deadline (spol sc) tmo tstart (clk s2) in
+    if (n <=? len (buf s2))%N then
+      match d with
+      | DlPassed => if late_read (spol sc) then (set_buf s2 [], RBytes (buf s2)) else (s2, RTimeout)
+      | _ => (set_buf s2 [], RBytes (buf s2))
+      end
+    else match d with
+         | DlPassed => (s2, RTimeout)
+         | DlNone => if silent then (s2, RHang) else ser_read_loop sc f n tmo tstart s2
+         | DlLeft _ => ser_read_loop sc f n tmo tstart s2
          end
   end.
 
+(* enough for: every event, every byte waiting or still to come, every tick before the deadline *)
 Definition ser_fuel (tmo : option Z) (s : st) : nat :=
-  S (S (length (orc s) + length (pend s) + length (stream_of (orc s)))) + match tmo with Some t => Z.to_nat (t / ser_tick) | None => 0 end.
+  S (S (S (length (orc s) + length (pend s) + length (stream_of (orc s))))) +
+  match tmo with Some t => Z.to_nat t | None => 0 end.
 
 Definition tmo_nonpos (t : option Z) : bool := match t with Some x => (x <=? 0)%Z | None => false end.
 
-Definition ser_read_op (n : N) (tmo : option Z) (s : st) : st * res :=
+Definition ser_read_op (sc : scfg) (n : N) (tmo : option Z) (s : st) : st * res :=
   if negb (is_open s) then (s, RInvalid)
   else if (n <=? len (buf s))%N then (set_buf s (drop n (buf s)), RBytes (take n (buf s)))
   else if tmo_nonpos tmo then
     let '(s1, w) := ser_in_waiting s in
     if (n - len (buf s) <=? w)%N then
-      let '(s2, b, _) := ser_read (n - len (buf s)) s1 in
+      let '(s2, b, _) := ser_read (tick sc) (n - len (buf s)) s1 in
       let s3 := set_buf s2 (buf s2 ++ b) in
       if (len (buf s3) <? n)%N then (s3, RTimeout) else (set_buf s3 [], RBytes (buf s3))
     else (s1, RTimeout)
-  else ser_read_loop (ser_fuel tmo s) n tmo (clk s) s.
+  else ser_read_loop sc (ser_fuel tmo s) n tmo (clk s) s.
 
-Fixpoint ser_ru_loop (fuel : nat) (term : list N) (tmo : option Z) (tstart : Z)
+Definition tr_passed (p : pol) (tr : option Z) : bool :=
+  match tr with Some x => passed p x | None => false end.
+
+(* QMI_SerialTransport.read_until, the one-byte loop:
+     while tremain is None or tremain > 0: buf += read(1); if buf.endswith(term): return ... *)
+Fixpoint ser_ru_loop (sc : scfg) (fuel : nat) (term : list N) (tmo : option Z) (tstart : Z)
          (tremain : option Z) (s : st) : st * res :=
   match fuel with
   | O => (s, RFuel)
   | S f =>
-    if tmo_nonpos tremain then (s, RTimeout)
+    if tr_passed (spol sc) tremain then (s, RTimeout)
     else
-      let '(s1, b, silent) := ser_read 1 s in
+      let '(s1, b, silent) := ser_read (tick sc) 1 s in
       let s2 := set_buf s1 (buf s1 ++ b) in
-      if endswith (buf s2) term then (set_buf s2 [], RBytes (buf s2))
+      if endswith (buf s2) term then
+        match deadline (spol sc) tmo tstart (clk s2) with
+        | DlPassed => if late_ru (spol sc) then (set_buf s2 [], RBytes (buf s2)) else (s2, RTimeout)
+        | _ => (set_buf s2 [], RBytes (buf s2))
+        end
       else match tmo with
-           | None => if silent then (s2, RHang) else ser_ru_loop f term tmo tstart None s2
-           | Some t => ser_ru_loop f term tmo tstart (Some (tstart + t - clk s2)%Z) s2
+           | None => if silent then (s2, RHang) else ser_ru_loop sc f term tmo tstart None s2
+           | Some t => ser_ru_loop sc f term tmo tstart (Some (tstart + t - clk s2)%Z) s2
            end
   end.
 
-Definition ser_read_until (term : list N) (tmo : option Z) (s : st) : st * res :=
-  if negb (is_open s) then (s, RInvalid)
+Definition ser_read_until (sc : scfg) (term : list N) (tmo : option Z) (s : st) : st * res :=
+  if negb (is_open s) then
+    (if ru_chk_first (spol sc) then (s, RInvalid)
+     else match cut_term term s with Some x => x | None => (s, RInvalid) end)
   else
     let s1 := match find term (buf s) with
               | Some _ => s
               | None => let '(sa, w) := ser_in_waiting s in
-                        let '(sb, b, _) := ser_read w sa in set_buf sb (buf sb ++ b)
+                        let '(sb, b, _) := ser_read (tick sc) w sa in set_buf sb (buf sb ++ b)
               end in
     match cut_term term s1 with
     | Some x => x
-    | None => ser_ru_loop (ser_fuel tmo s1) term tmo (clk s1) tmo s1
+    | None => ser_ru_loop sc (ser_fuel tmo s1) term tmo (clk s1) tmo s1
     end.
 
-Definition ser_rut (n : N) (tmo : option Z) (s : st) : st * res :=
-  let '(s1, r) := ser_read_op n tmo s in
+Definition ser_rut (sc : scfg) (n : N) (tmo : option Z) (s : st) : st * res :=
+  let '(s1, r) := ser_read_op sc n tmo s in
   match r with
   | RTimeout => (set_buf s1 [], RBytes (buf s1))
   | _ => (s1, r)
@@ -359,7 +410,7 @@ Inductive op :=
 | OpDiscard
 | OpWrite (d : list N).
 
-Inductive kind := Sock (c : cfg) | Serial.
+Inductive kind := Sock (c : cfg) | Serial (sc : scfg).
 
 (* what a call yields: result, bytes thrown away by the call (ghost), calls made on the stand-in *)
 Record outp := mkout { o_res : res; o_dropped : list N; o_calls : list dcall }.
@@ -369,18 +420,18 @@ Definition nodrop (x : st * res) : st * res * list N := (fst x, snd x, []).
 Definition step_raw (k : kind) (s : st) (o : op) : st * res * list N :=
   match k, o with
   | Sock _, OpOpen => sock_open s
-  | Serial, OpOpen => ser_open s
+  | Serial _, OpOpen => ser_open s
   | _, OpClose => nodrop (do_close s)
   | Sock c, OpRead n t => nodrop (sock_read c n t s)
-  | Serial, OpRead n t => nodrop (ser_read_op n t s)
+  | Serial sc, OpRead n t => nodrop (ser_read_op sc n t s)
   | Sock c, OpReadUntil tm t => nodrop (sock_read_until c tm t s)
-  | Serial, OpReadUntil tm t => nodrop (ser_read_until tm t s)
+  | Serial sc, OpReadUntil tm t => nodrop (ser_read_until sc tm t s)
   | Sock c, OpRut n t => nodrop (sock_rut c n t s)
-  | Serial, OpRut n t => nodrop (ser_rut n t s)
+  | Serial sc, OpRut n t => nodrop (ser_rut sc n t s)
   | Sock c, OpDiscard => sock_discard c s
-  | Serial, OpDiscard => ser_discard s
+  | Serial _, OpDiscard => ser_discard s
   | Sock _, OpWrite d => nodrop (sock_write d s)
-  | Serial, OpWrite d => nodrop (ser_write d s)
+  | Serial _, OpWrite d => nodrop (ser_write d s)
   end.
 
 Definition new_calls (s s' : st) : list dcall :=
@@ -426,3 +477,27 @@ Fixpoint accepted_writes (ops : list op) (outs : list outp) : list (list N) :=
 (* timing assumption for the serial fuel bound: the clock never runs backwards *)
 Definition ev_dt_ok (e : ev) : Prop :=
   match e with Chunk _ dt | TimeoutEv dt => (0 <= dt)%Z | Eof => True end.
+
+(* ------------------------------------------------------------------------------------------ *)
+(* The outcomes the property allows: those of any policy, with the constants of the class.     *)
+(* ------------------------------------------------------------------------------------------ *)
+
+Definition bools := [false; true].
+Definition all_pols : list pol :=
+  flat_map (fun a => flat_map (fun b => flat_map (fun c => flat_map (fun d =>
+    map (fun e => mkpol a b c d e) bools) bools) bools) bools) bools.
+
+Definition with_pol (k : kind) (p : pol) : kind :=
+  match k with
+  | Sock c => Sock (mkcfg (stream c) (minp c) (maxp c) (rut_slice c) p)
+  | Serial sc => Serial (mkscfg (tick sc) p)
+  end.
+
+(* the kind itself first (the check tries them in this order) *)
+Definition variants (k : kind) : list kind := k :: map (with_pol k) all_pols.
+
+Definition allowed_step (k : kind) (s : st) (o : op) (r : st * outp) : Prop :=
+  exists k', In k' (variants k) /\ step k' s o = r.
+
+Definition allowed_outcomes (k : kind) (s : st) (ops : list op) (r : st * list outp) : Prop :=
+  exists k', In k' (variants k) /\ run k' s ops = r.
